@@ -17,6 +17,7 @@ from __future__ import annotations
 import contextlib
 import io
 import os
+import re
 import shutil
 import sys
 import tempfile
@@ -56,6 +57,14 @@ def respell(argv, how):
         if how == "glued" and argv[i] == "-w" and val is not None:
             out.append("-w" + val)
             i += 2
+            continue
+        if how == "bundle" and argv[i] == "-w" and val is not None:
+            out.append("-iw" + val)  # a bundle of short options that starts with an option the precedence logic does not track
+            i += 2
+            continue
+        if how == "bundle" and argv[i] in ("--semantic", "--cleanups"):
+            out.append({"--semantic": "-is", "--cleanups": "-ic"}[argv[i]])
+            i += 1
             continue
         if how == "prefix" and a.startswith("--"):
             a = PREFIX.get(a, a)
@@ -162,7 +171,7 @@ def effective(cli: dict, auto: bool, config: dict | None) -> dict:
 class C16(Prop):
     id = "C16"
     once_kinds = ("search", "keys")
-    rule = ("cases: every one of the 13 settings (include is config-only) x {flag passed with a non-default value, passed with its default value, not passed; spelled canonically, as --opt=value, as an unambiguous prefix, as -wN} x "
+    rule = ("cases: every one of the 13 settings (include is config-only) x {flag passed with a non-default value, passed with its default value, not passed; spelled canonically, as --opt=value, as an unambiguous prefix, as -wN, inside a bundle of short options} x "
             "{config sets it, does not} x {--auto, not} with a random config kind (.flowmark.toml / flowmark.toml / pyproject.toml), "
             "spelling (flat / sectioned, kebab / snake) and location (cwd / parent / grandparent); all ordered combinations of config "
             "files in cwd and parent for the search order; every accepted key for 'has an effect'. Non-trivial: the effective value "
@@ -187,7 +196,7 @@ class C16(Prop):
                             yield {"kind": "setting", "setting": s, "flag": flag, "config": cfg, "auto": auto,
                                    "cfg_kind": r.choice([".flowmark.toml", "flowmark.toml", "pyproject.toml"]), "sectioned": r.random() < 0.5,
                                    "kebab": r.random() < 0.5, "where": r.choice(["cwd", "parent", "grandparent"]),
-                                   "extra_cfg": r.random() < 0.5, "spelling": r.choice(["canonical", "canonical", "equals", "prefix", "glued"]), "via_sys_argv": r.random() < 0.35}
+                                   "extra_cfg": r.random() < 0.5, "spelling": r.choice(["canonical", "canonical", "equals", "prefix", "glued", "bundle"]), "via_sys_argv": r.random() < 0.35}
         kinds = [None, ".flowmark.toml", "flowmark.toml", "pyproject.toml", "pyproject-nosection", "pyproject-empty-table"]
         j = 0
         for a in kinds:
@@ -261,12 +270,15 @@ class C16(Prop):
         col.case()
         col.mon("format")
         want = fm.fmt(PROBE, **{k: eff[k] for k in FORMAT})
-        if auto:
+        inplace_bundle = any(re.match(r"-i[a-z]", f) for f in flags)
+        if auto or inplace_bundle:
             shutil.copy(os.path.join(work, "probe.md"), os.path.join(work, "probe-auto.md"))
-            rc, out, err = self.main(["--auto"] + flags + ["probe-auto.md"], work)
+            rc, out, err = self.main((["--auto"] if auto else []) + flags + ["probe-auto.md"], work)
             with open(os.path.join(work, "probe-auto.md")) as f:
                 got = f.read()
             os.remove(os.path.join(work, "probe-auto.md"))
+            if os.path.exists(os.path.join(work, "probe-auto.md.orig")):
+                os.remove(os.path.join(work, "probe-auto.md.orig"))
         else:
             rc, out, err = self.main(flags + ["probe.md"], work)
             got = out
